@@ -39,7 +39,8 @@ pub struct Scn {
 pub fn gen(rng: &mut Rng) -> Scn {
     let nkeys = rng.range(2, 5) as u32;
     let max_size = rng.range(1, 4) as u32;
-    let ttl_ms = *rng.pick(&[None, None, Some(20u64), Some(20), Some(200)]);
+    // u64::MAX stands for Duration::MAX ("never expires" written as a TTL)
+    let ttl_ms = *rng.pick(&[None, None, None, Some(20u64), Some(20), Some(20), Some(200), Some(200), Some(u64::MAX)]);
     let n = rng.range(20, 120) as usize;
     let conc = rng.chance(1, 3);
     let mut ops = vec![];
@@ -73,7 +74,7 @@ pub fn valid(s: &Scn) -> bool {
     s.policy <= 2
         && s.max_size >= 1
         && s.max_size <= 6
-        && s.ttl_ms.map(|t| t >= 1 && t <= 1000).unwrap_or(true)
+        && s.ttl_ms.map(|t| (t >= 1 && t <= 1000) || t == u64::MAX).unwrap_or(true)
         && !s.ops.is_empty()
         && s.ops.len() <= 140
         && s.ops.iter().all(|o| o.gap_ms <= 500 && o.key >= 1 && o.key <= 6 && o.lat_ms <= 50 && o.via <= 2)
@@ -258,7 +259,7 @@ pub fn run(s: &Scn, ctx: &mut RunCtx) -> RunOutput {
         if scn.shared {
             let mut b = SharedCacheLayer::<Req, u32, crate::inner::Resp>::builder().max_size(scn.max_size as usize).eviction_policy(policy).key_extractor(|r: &Req| r.key);
             if let Some(t) = scn.ttl_ms {
-                b = b.ttl(Duration::from_millis(t));
+                b = b.ttl(if t == u64::MAX { Duration::MAX } else { Duration::from_millis(t) });
             }
             let layer = b.build();
             let s0 = layer.layer(SimInner::new(0));
@@ -274,7 +275,7 @@ pub fn run(s: &Scn, ctx: &mut RunCtx) -> RunOutput {
         } else {
             let mut b = CacheLayer::<Req, u32>::builder().max_size(scn.max_size as usize).eviction_policy(policy).key_extractor(|r: &Req| r.key);
             if let Some(t) = scn.ttl_ms {
-                b = b.ttl(Duration::from_millis(t));
+                b = b.ttl(if t == u64::MAX { Duration::MAX } else { Duration::from_millis(t) });
             }
             let layer = b.build();
             let base = layer.layer(SimInner::new(0));
@@ -295,7 +296,7 @@ pub fn run(s: &Scn, ctx: &mut RunCtx) -> RunOutput {
     let rep = run_sim(cfg, &mut ctx.chooser, setup, Hooks { step: &mut step, idle: &mut idle });
     let log = world::with(|w| std::mem::take(&mut w.log));
     let calls = inner_calls(&log);
-    let m = M { policy: s.policy, cap: s.max_size as usize, ttl: s.ttl_ms.map(|t| t * 1000) };
+    let m = M { policy: s.policy, cap: s.max_size as usize, ttl: s.ttl_ms.filter(|t| *t != u64::MAX).map(|t| t * 1000) };
     let mut states: Vec<St> = vec![St { ents: vec![], tick: 0 }];
     let mut hit_flag: std::collections::HashMap<u32, bool> = Default::default();
     let mut hits = 0;
